@@ -524,6 +524,13 @@ func main() {
 			sn := add(fl, false, false, finish([]step{L(0), C, P, R(0)}), "finding_h2c_upgrade")
 			sn.transport, sn.h2c[0], sn.mid[0], sn.rawOverH2c = "h2c", true, false, true
 			sigOf[sn] = h2cSig
+			// an upgraded and an ordinary request side by side: the ordinary one is drained, the upgraded one is not
+			sn = add(fl, false, false, finish([]step{L(1), L(0), C, P, R(1), R(0)}), "finding_h2c_upgrade")
+			sn.transport, sn.h2c, sn.mid, sn.rawOverH2c = "h2c", map[int]bool{0: true}, map[int]bool{}, true
+			sigOf[sn] = h2cSig
+			sn = add(fl, false, false, finish([]step{L(0), L(1), L(2), R(2), C, P, R(0), R(1)}), "finding_h2c_upgrade")
+			sn.transport, sn.h2c, sn.mid, sn.rawOverH2c = "h2c", map[int]bool{0: true, 2: true}, map[int]bool{1: true}, true
+			sigOf[sn] = h2cSig
 		}
 	}
 
@@ -694,6 +701,16 @@ func main() {
 			le = "LAddrInUse"
 		}
 		term := emit.App("CRun", s.flavor, tr, le, scriptCoq(s.script), emit.List(evs))
+		if s.rawOverH2c {
+			var ups []int
+			for id, on := range s.h2c {
+				if on {
+					ups = append(ups, id)
+				}
+			}
+			sort.Ints(ups)
+			term = emit.App("CRunUpgraded", s.flavor, emit.NatList(ups), scriptCoq(s.script), emit.List(evs))
+		}
 		ids := make([]int, 0, len(s.sizes))
 		for id := range s.sizes {
 			ids = append(ids, id)
